@@ -12,7 +12,7 @@
                     | Unspec (two recorded findings: append onto the atomless empty ensemble ConformerEnsemble();
                     explicit n_conformers=0 with a Molecule).  `run` stops at Unspec, so every theorem about
                     `run W h = Some W'` is about histories that stay outside those two calls.           *)
-From Coq Require Import List Bool ZArith.
+From Coq Require Import List Bool ZArith Sorted.
 Import ListNotations.
 From Molli Require Import Model.Ens Proofs.Ens.
 
@@ -145,6 +145,57 @@ Theorem C14_slice_valid : forall len a b c ids x,
 Proof. exact slice_ids_in_range. Qed.
 Print Assumptions C14_slice_valid.
 
+(* ---- ... and names EXACTLY the conformers a python list slice of [0 .. len-1] selects, for EVERY slice (negative,
+        out-of-range or missing start / stop, any non-zero step, empty results): with (lo, hi, st) the clipped bounds
+        of slice.indices, the result lists -- no conformer twice, in the direction of the step -- exactly the
+        existing conformers lo + j*st that lie before hi.  (range over slice.indices(n) is how CPython defines
+        list(range(n))[a:b:c]; the named forms below spell the clipping out.) *)
+Theorem C14_slice_spec : forall len a b c ids, slice_ids len a b c = Some ids ->
+  exists lo hi st, slice_indices (Z.of_nat len) a b c = Some (lo, hi, st) /\ st <> 0%Z /\ NoDup ids /\
+    StronglySorted (fun x y => if (0 <? st)%Z then (x < y)%Z else (y < x)%Z) ids /\
+    forall x, In x ids <->
+      (0 <= x < Z.of_nat len)%Z /\
+      exists j : nat, x = (lo + Z.of_nat j * st)%Z /\ ((0 < st /\ x < hi) \/ (st < 0 /\ hi < x))%Z.
+Proof. exact slice_ids_spec. Qed.
+Print Assumptions C14_slice_spec.
+
+(* ---- the slice forms by name: ens[:] is every conformer in order; ens[::-1] every conformer in reverse; ens[:k]
+        the first k (NONE for k = 0, all for k beyond the end); ens[k:] conformers k .. len-1 (none for k beyond the
+        end); ens[-k:] the LAST k, each once; ens[:-k] all but the last k *)
+Theorem C14_slice_forms : forall len,
+  slice_ids len None None None = Some (map Z.of_nat (seq 0 len)) /\
+  slice_ids len None None (Some (-1)%Z) = Some (rev (map Z.of_nat (seq 0 len))) /\
+  (forall k, slice_ids len None (Some (Z.of_nat k)) None = Some (map Z.of_nat (seq 0 (Nat.min k len)))) /\
+  (forall k, slice_ids len (Some (Z.of_nat k)) None None = Some (map Z.of_nat (seq (Nat.min k len) (len - k)))) /\
+  (forall k, 0 < k -> slice_ids len (Some (- Z.of_nat k)%Z) None None = Some (map Z.of_nat (seq (len - k) (Nat.min k len)))) /\
+  (forall k, 0 < k -> slice_ids len None (Some (- Z.of_nat k)%Z) None = Some (map Z.of_nat (seq 0 (len - k)))).
+Proof.
+  intros len. split; [exact (slice_full len)|]. split; [exact (slice_reversed len)|]. split; [exact (slice_prefix len)|].
+  split; [exact (slice_suffix len)|]. split; [exact (slice_neg_start len)|exact (slice_neg_stop len)].
+Qed.
+Print Assumptions C14_slice_forms.
+
+(* ---- ens[::s], s > 0: the conformers whose index is a multiple of s *)
+Theorem C14_slice_stride : forall len s ids, (0 < s)%Z -> slice_ids len None None (Some s) = Some ids ->
+  forall x, In x ids <-> (0 <= x < Z.of_nat len)%Z /\ (x mod s = 0)%Z.
+Proof. exact slice_stride. Qed.
+Print Assumptions C14_slice_stride.
+
+(* ---- a slice raises exactly when its step is 0 *)
+Theorem C14_slice_zero_step : forall len a b c, slice_ids len a b c = None <-> c = Some 0%Z.
+Proof. exact slice_ids_none. Qed.
+Print Assumptions C14_slice_zero_step.
+
+(* ---- the elements of a slice are live views: `for conf in ens[a:b:c]: conf.<transform f>` never fails for a
+        non-zero step and transforms exactly the rows the slice names, ONCE each; every other row, the charges, the
+        weights and the shape stay as they were *)
+Theorem C14_slice_write : forall a b c f e ids, slice_ids (nc e) a b c = Some ids ->
+  exists e', slice_map a b c f e = Some e' /\ na e' = na e /\ nc e' = nc e /\ charges e' = charges e /\ weights e' = weights e /\
+    forall j, (In (Z.of_nat j) ids -> nth_error (coords e') j = option_map (map f) (nth_error (coords e) j)) /\
+              (~ In (Z.of_nat j) ids -> nth_error (coords e') j = nth_error (coords e) j).
+Proof. exact slice_map_spec. Qed.
+Print Assumptions C14_slice_write.
+
 (* ---- every correspondence case the kernel accepts is a run of this model from nothing, ending rectangular *)
 Theorem C14_check_case_sound : forall c, check_case c = true ->
   exists W', run empty_store (map fst c) = Some W' /\ StoreRect W'.
@@ -198,3 +249,15 @@ Proof.
   simpl. repeat split; try (eexists; split; reflexivity); try discriminate.
   repeat constructor.
 Qed.
+
+(* the slice theorems are not vacuous: the unusual-but-legal forms on six conformers, and a write through ens[-2:] *)
+Example C14_slice_examples :
+  slice_ids 6 (Some (-2)) None None = Some [4; 5] /\ slice_ids 6 None (Some 0) None = Some [] /\
+  slice_ids 6 (Some 2) (Some 0) None = Some [] /\ slice_ids 6 None (Some (-1)) None = Some [0; 1; 2; 3; 4] /\
+  slice_ids 6 (Some (-4)) (Some (-1)) None = Some [2; 3; 4] /\ slice_ids 6 None None (Some (-1)) = Some [5; 4; 3; 2; 1; 0] /\
+  slice_ids 6 (Some 4) (Some 1) (Some (-1)) = Some [4; 3; 2] /\ slice_ids 6 (Some (-1)) None (Some (-2)) = Some [5; 3; 1] /\
+  slice_ids 6 (Some (-100)) (Some 2) None = Some [0; 1] /\ slice_ids 6 (Some 1) (Some 100) (Some 2) = Some [1; 3; 5] /\
+  slice_ids 6 None None (Some 0) = None /\
+  option_map coords (slice_map (Some (-2)) None None (r_add (1, 1, 1)) (mkEns 1 [[r3 1 1 1]; [r3 2 2 2]; [r3 3 3 3]] [[n 0]; [n 0]; [n 0]] [n 1; n 1; n 1]))
+    = Some [[r3 1 1 1]; [r3 3 3 3]; [r3 4 4 4]].
+Proof. vm_compute. repeat split. Qed.
